@@ -1,6 +1,14 @@
 package ledger
 
 import (
+	"fmt"
+	"os"
+	"runtime"
+	"runtime/debug"
+	"testing"
+	"testing/synctest"
+	"time"
+
 	"verif/sim"
 )
 
@@ -30,6 +38,8 @@ type Scenario struct {
 	Setup func(w *World, r *Runner) []Observer
 	// Finish runs after the last step (final checks over the recorded history).
 	Finish func(w *World, r *Runner)
+	// Bubble runs the scenario inside a testing/synctest bubble (fake wall clock).
+	Bubble bool
 	// Mixed: no GenExtra of its own; run over the base workload or one of the
 	// registered workloads, chosen per seed (core oracles).
 	Mixed bool
@@ -70,8 +80,41 @@ func (s Scenario) Gen(seed uint64, tier string) *sim.Plan {
 }
 
 func (s Scenario) Exec(env *sim.Env, p *sim.Plan) *sim.Result {
+	if !s.Bubble {
+		return s.exec(env, p, false)
+	}
+	// fake clock: the whole run, including every goroutine and timer of the
+	// chain, lives inside a testing/synctest bubble whose wall clock the world
+	// steers (time.Now() inside contracts reads it).
+	Boot()
+	var res *sim.Result
+	synctest.Test(env.T, func(t *testing.T) {
+		defer func() {
+			if r := recover(); r != nil {
+				res = &sim.Result{Seed: p.Seed, Panic: fmt.Sprintf("%v\n%s", r, debug.Stack())}
+			}
+		}()
+		res = s.exec(env, p, true)
+		// let timer-bound helper goroutines of the chain (e.g. the LFB sync
+		// notification, which gives up after a timeout) run out before the bubble ends
+		time.Sleep(2 * time.Hour)
+		synctest.Wait()
+		if os.Getenv("VERIF_DEBUG_BUBBLE") != "" {
+			buf := make([]byte, 1<<20)
+			n := runtime.Stack(buf, true)
+			os.Stderr.Write(buf[:n])
+		}
+	})
+	return res
+}
+
+func (s Scenario) exec(env *sim.Env, p *sim.Plan, bubble bool) *sim.Result {
 	tr := sim.NewTrace()
 	tr.Keep = env.KeepLog
+	if bubble {
+		// bubble time starts at 2000-01-01; move it to the chain's genesis time
+		time.Sleep(time.Until(time.Unix(genesisTime, 0)))
+	}
 	w := NewWorldWith(p.Seed, CfgFromPlan(p), tr, func(w *World) {
 		if s.Early != nil {
 			for _, o := range s.Early(w) {
@@ -80,6 +123,7 @@ func (s Scenario) Exec(env *sim.Env, p *sim.Plan) *sim.Result {
 		}
 	})
 	defer w.Close()
+	w.InBubble = bubble
 	r := NewRunner(w)
 	r.Plan = p
 	if s.Mixed {
